@@ -74,6 +74,7 @@ CHECKS = {
             unit("c20-race-gabi", "root", ["zz_verif_c20_test.go"], "^TestVerifC20RaceBodies$", race=True, env={"VERIF_RACE": "1"}),
             unit("c20-race-cprng", "internal/common", ["zz_verif_c20_test.go"], "^TestVerifC20RaceCPRNG$", race=True, env={"VERIF_RACE": "1"}),
             unit("c20-race-helpers", "internal/common", ["zz_verif_c20_helpers_test.go"], "^TestVerifC20RaceHelpers$", race=True, env={"VERIF_RACE": "1"}),
+            unit("c20-procs", "keyproof", ["zz_verif_c20_procs_test.go", "zz_verif_c17_test.go"], "^TestVerifC20Procs$"),
             unit("c20-exppool", "keyproof", ["zz_verif_c20_test.go", "zz_verif_c17_test.go"], "^TestVerifC20ExpPool$", shards={"quick": 12, "thorough": 16},
                  instr=["keyproof/exp.go"], cpus=3),
             unit("c20-stop-drain", "gabikeys", ["zz_verif_c16_stop_test.go"], "^TestVerifC16StopDrain$", shards={"quick": 4, "thorough": 8},
@@ -89,6 +90,7 @@ CHECKS = {
             unit("c16-stop", "gabikeys", ["zz_verif_c16_stop_test.go"], "^TestVerifC16Stop(Drain)?$", shards={"quick": 16, "thorough": 16},
                  instr=["safeprime/safeprime.go", "gabikeys/keys.go"]),
             unit("c16-gen", "gabikeys", ["zz_verif_c16_gen_test.go", "zz_verif_c16_stop_test.go"], "^TestVerifC16(Generator|Lengths)$", shards={"quick": 12, "thorough": 16}),
+            unit("c16-procs", "gabikeys", ["zz_verif_c16_gen_test.go", "zz_verif_c16_stop_test.go"], "^TestVerifC16Procs$"),
             unit("c20-race-helpers", "internal/common", ["zz_verif_c20_helpers_test.go"], "^TestVerifC20RaceHelpers$", race=True, env={"VERIF_RACE": "1"}),
             unit("c16-filter", "gabikeys", ["zz_verif_c16_filter_test.go", "zz_verif_c16_gen_test.go", "zz_verif_c16_stop_test.go"], "^TestVerifC16Filter$", shards={"quick": 12, "thorough": 16}),
         ],
